@@ -106,9 +106,10 @@ class _G:
                 if self.want("init:global-array", 5):
                     init = " = {%s}" % ", ".join(self.const_expr(1) for _ in range(n))
                 size = str(n)
-                if self.consts and self.want("type:array-size-constant", 2):
-                    # size given by a constant expression of the same value
-                    size = "%d + 0 * %s" % (n, self.pick(self.consts))
+                if self.want("type:array-size-constant", 3):
+                    size = self.name("N")  # as in docs: const int N = 10; ... int[N]
+                    self.lines.append("const int %s = %d;" % (size, n))
+                    self.consts.append(size)
                 self.lines.append("%svar int[%s] %s%s;" % (pub, size, nm, init))
                 self.garrs.append((nm, n))
             elif k < 9 and self.types:
